@@ -240,7 +240,7 @@ InitWith(kind, nb, low, node, seeded, t0, s0, c0, threads) ==
 
 ---------------------------------------------------------------------------
 (* Bounded instance *)
-CONSTANTS Threads, Clocks, Kinds, NodeBitsSet, SeedTimes, MaxCalls
+CONSTANTS Threads, Clocks, Kinds, NodeBitsSet, LowSet, SeedTimes, MaxCalls
 
 Acts ==
        [op : {"tick"}, now : Clocks]
@@ -248,8 +248,8 @@ Acts ==
   \cup [op : {"restart"}]
 
 Init ==
-  \E kind \in Kinds, nb \in NodeBitsSet, low \in BOOLEAN, c0 \in Clocks :
-    \E node \in {0, 2^nb - 1} :
+  \E kind \in Kinds, nb \in NodeBitsSet, low \in LowSet, c0 \in Clocks :
+    \E node \in (IF LowSet = BOOLEAN THEN {0, 2^nb - 1} ELSE {2^nb - 1}) :
       \/ /\ kind = "hard"
          /\ \E seeded \in BOOLEAN :
               IF seeded
@@ -258,7 +258,7 @@ Init ==
               ELSE InitWith(kind, nb, low, node, FALSE, 0, 0, c0, Threads)   \* NewNode(node, 0)
       \/ /\ kind = "mono" /\ c0 >= 0
          /\ InitWith(kind, nb, low, node, FALSE, 0, 0, c0, Threads)
-      \/ /\ kind = "nano" /\ nb = (CHOOSE x \in NodeBitsSet : TRUE) /\ ~low /\ node = 0
+      \/ /\ kind = "nano" /\ nb = (CHOOSE x \in NodeBitsSet : TRUE) /\ low = (CHOOSE x \in LowSet : TRUE) /\ node = 2^nb - 1
          /\ \E t0 \in SeedTimes : InitWith(kind, nb, low, node, FALSE, t0, 0, c0, Threads)
 
 Next == \E a \in Acts : Step(a)
@@ -297,4 +297,6 @@ View == vars
 (* .cfg files cannot write negative numbers *)
 ClocksA == (-1)..3
 ClocksB == (-1)..4
+ClocksC == 0..2
+ClocksD == (-1)..2
 =============================================================================
